@@ -49,6 +49,7 @@ Outcome deliver(const std::string& msg, const std::vector<size_t>& cuts, size_t 
         size_t end = ends[i];
         if (end <= start) continue;
         if (feeds) ++*feeds;
+        sim::heartbeat(); // the harness is alive; a feed()/parse() that never returns still ends in verdict hang
         try {
             if (!parser.feed(msg.data() + start, end - start)) {
                 o.kind = Outcome::Error;
